@@ -548,6 +548,12 @@ func operandIndices(v ssa.Value) (idx map[int]bool, whole bool) {
 
 func isOperands(v ssa.Value) bool {
 	v = eng.Unwrap(v)
+	// the operand list handed to a helper or table handler as a parameter
+	if par, ok := v.(*ssa.Parameter); ok {
+		if sl, ok := par.Type().Underlying().(*types.Slice); ok && strings.HasSuffix(eng.TypeName(sl.Elem()), "core.Object") {
+			return true
+		}
+	}
 	if fr, ok := eng.LoadOfField(v); ok && fr.Field == "Operands" {
 		return true
 	}
@@ -585,6 +591,10 @@ func ruleOperatorBinding(c *eng.Ctx) {
 					found = call
 					break
 				}
+			}
+			if found == nil {
+				// dispatched through a read-only table operator -> setter, called on the looked-up entry
+				found = tableDispatchCall(p, fn, sp.op, sp.callee)
 			}
 			if found == nil {
 				c.Viol(R, key, fn.Pos(), fmt.Sprintf("operator %q does not reach GraphicsState.%s", sp.op, sp.callee))
@@ -680,10 +690,24 @@ func ruleOperatorBinding(c *eng.Ctx) {
 	}
 
 	// sibling interpreter: graphicsstate extractor binds cm the same way
-	if gfn := findFuncWithCase(p, "graphicsstate", "cm", "Transform"); gfn == nil {
+	gfn := findFuncWithCase(p, "graphicsstate", "cm", "Transform")
+	viaTable := false
+	if gfn == nil {
+		// the operators may be dispatched through a read-only table of handler functions keyed by operator
+		if h := opTableHandler(p, "graphicsstate", "cm"); h != nil {
+			gfn, viaTable = h, true
+		}
+	}
+	if gfn == nil {
 		c.Undec(R, "graphicsstate extractor cm", token.NoPos, "no function in package graphicsstate dispatches \"cm\" to Transform")
 	} else {
 		g := opGuarded(gfn, "cm")
+		if viaTable {
+			g = map[*ssa.BasicBlock]bool{}
+			for _, b := range gfn.Blocks {
+				g[b] = true
+			}
+		}
 		okc := false
 		var pos token.Pos = gfn.Pos()
 		for _, call := range eng.Calls(gfn, false, func(n string, _ ssa.CallInstruction) bool { return strings.HasSuffix(n, ").Transform") }) {
@@ -705,9 +729,47 @@ func ruleOperatorBinding(c *eng.Ctx) {
 		if len(saves) != 1 {
 			c.Viol(R, "text.(*Extractor).invokeXObject#Save", inv.Pos(), fmt.Sprintf("expected exactly one Save around the form's content, found %d", len(saves)))
 		} else {
+			// a call restores when it is Restore itself or a local helper/closure all of whose paths call Restore
+			var restores func(ci ssa.CallInstruction, depth int) bool
+			restores = func(ci ssa.CallInstruction, depth int) bool {
+				if eng.CalleeName(ci) == gsType+"Restore" {
+					return true
+				}
+				if depth > 1 {
+					return false
+				}
+				cal := ci.Common().StaticCallee()
+				if cal == nil {
+					if mc, ok := ci.Common().Value.(*ssa.MakeClosure); ok {
+						cal, _ = mc.Fn.(*ssa.Function)
+					}
+				}
+				if cal == nil || cal.Blocks == nil || !eng.InModule(cal) {
+					return false
+				}
+				inner := func(b *ssa.BasicBlock) bool {
+					for _, in := range b.Instrs {
+						if c2, ok := in.(ssa.CallInstruction); ok && restores(c2, depth+1) {
+							return true
+						}
+					}
+					return false
+				}
+				if inner(cal.Blocks[0]) {
+					return true
+				}
+				for b := range eng.ReachableBlocks([]*ssa.BasicBlock{cal.Blocks[0]}, inner) {
+					if len(b.Instrs) > 0 {
+						if _, ok := b.Instrs[len(b.Instrs)-1].(*ssa.Return); ok {
+							return false
+						}
+					}
+				}
+				return true
+			}
 			isRestore := func(b *ssa.BasicBlock) bool {
 				for _, in := range b.Instrs {
-					if ci, ok := in.(ssa.CallInstruction); ok && eng.CalleeName(ci) == gsType+"Restore" {
+					if ci, ok := in.(ssa.CallInstruction); ok && restores(ci, 0) {
 						return true
 					}
 				}
@@ -820,6 +882,100 @@ func matrixFromOperandsInOrder(v ssa.Value) bool {
 		}
 	}
 	return len(cells) == 6
+}
+
+// tableDispatchCall: the package initialiser stores, in a map literal kept in a package-level variable, the method
+// `callee` under the key `op`; fn looks the operator up in that variable and calls the entry. Returns that call.
+func tableDispatchCall(p *eng.Prog, fn *ssa.Function, op, callee string) ssa.CallInstruction {
+	if fn.Pkg == nil {
+		return nil
+	}
+	init := fn.Pkg.Func("init")
+	if init == nil {
+		return nil
+	}
+	var table *ssa.Global
+	eng.Instrs(init, false, func(in ssa.Instruction) {
+		mu, ok := in.(*ssa.MapUpdate)
+		if !ok {
+			return
+		}
+		if k, ok := eng.ConstString(mu.Key); !ok || k != op {
+			return
+		}
+		var h *ssa.Function
+		switch v := eng.Unwrap(mu.Value).(type) {
+		case *ssa.Function:
+			h = v
+		case *ssa.MakeClosure:
+			h, _ = v.Fn.(*ssa.Function)
+		}
+		if h == nil || !(h.Name() == callee || strings.HasPrefix(h.Name(), callee+"$")) {
+			return
+		}
+		// the variable the literal is stored in
+		for _, r := range *mu.Map.Referrers() {
+			if st, ok := r.(*ssa.Store); ok && st.Val == mu.Map {
+				if g, ok := st.Addr.(*ssa.Global); ok {
+					table = g
+				}
+			}
+		}
+	})
+	if table == nil {
+		return nil
+	}
+	var found ssa.CallInstruction
+	eng.Instrs(fn, false, func(in ssa.Instruction) {
+		ci, ok := in.(ssa.CallInstruction)
+		if !ok || ci.Common().StaticCallee() != nil || ci.Common().IsInvoke() {
+			return
+		}
+		for w := range eng.Slice(ci.Common().Value, nil) {
+			lk, ok := w.(*ssa.Lookup)
+			if !ok {
+				continue
+			}
+			if ld, ok := lk.X.(*ssa.UnOp); ok && ld.Op == token.MUL && ld.X == ssa.Value(table) {
+				for k := range eng.Slice(lk.Index, nil) {
+					if fr, ok := eng.AsField(k); ok && fr.Field == "Operator" {
+						found = ci
+					}
+				}
+			}
+		}
+	})
+	return found
+}
+
+// opTableHandler finds, in the initialiser of pkg, a map literal keyed by operator strings whose values are
+// functions, and returns the function stored under op.
+func opTableHandler(p *eng.Prog, pkg, op string) *ssa.Function {
+	for _, fn := range p.ModuleFuncs() {
+		if fn.Pkg == nil || eng.ShortPath(fn.Pkg.Pkg.Path()) != pkg || fn.Name() != "init" {
+			continue
+		}
+		var h *ssa.Function
+		eng.Instrs(fn, false, func(in ssa.Instruction) {
+			mu, ok := in.(*ssa.MapUpdate)
+			if !ok {
+				return
+			}
+			if k, ok := eng.ConstString(mu.Key); !ok || k != op {
+				return
+			}
+			switch v := eng.Unwrap(mu.Value).(type) {
+			case *ssa.Function:
+				h = v
+			case *ssa.MakeClosure:
+				h, _ = v.Fn.(*ssa.Function)
+			}
+		})
+		if h != nil {
+			return h
+		}
+	}
+	return nil
 }
 
 // findFuncWithCase finds a function of pkg that compares an Operator field with
